@@ -18,7 +18,7 @@ fn tag_inv(_op: &Op, _ctx: &dyn Context, _operands: &mut dyn CoordinateSet) -> u
     6
 }
 
-//@h {"id":"C03.K.apply.table","props":["C03","C01"],"tier":"quick","kind":"complete","timeout":600,"text":"Op::apply truth table over direction x inverted: the step's forward function runs iff (direction == Fwd) != inverted, otherwise its inverse function; exactly one runs; apply returns that function's count; the operand set is handed through untouched by apply itself"}
+//@h {"id":"C03.K.apply.table","props":["C03","C01"],"tier":"quick","kind":"complete","timeout":1800,"text":"Op::apply truth table over direction x inverted: the step's forward function runs iff (direction == Fwd) != inverted, otherwise its inverse function; exactly one runs; apply returns that function's count; the operand set is handed through untouched by apply itself"}
 #[kani::proof]
 #[kani::unwind(6)]
 fn c03_apply_table() {
@@ -34,7 +34,7 @@ fn c03_apply_table() {
     assert!(same4(&data[0], &c), "C03.K.apply.frame: apply itself does not touch the operands");
 }
 
-//@h {"id":"C01.K.apply.involution","props":["C01","C03"],"tier":"quick","kind":"complete","timeout":600,"text":"apply(Inv) on an op and apply(Fwd) on the same op with the inverted flag toggled run the same function: `X inv` forward == X inverse, and vice versa"}
+//@h {"id":"C01.K.apply.involution","props":["C01","C03"],"tier":"quick","kind":"complete","timeout":1800,"text":"apply(Inv) on an op and apply(Fwd) on the same op with the inverted flag toggled run the same function: `X inv` forward == X inverse, and vice versa"}
 #[kani::proof]
 #[kani::unwind(6)]
 fn c01_apply_involution() {
@@ -50,7 +50,7 @@ fn c01_apply_involution() {
     assert!(ra == rb, "C01.K.apply.involution: inverting the op and inverting the direction cancel");
 }
 
-//@h {"id":"C03.K.handle_inversion.table","props":["C03","C10"],"tier":"quick","kind":"complete","timeout":900,"text":"handle_inversion truth table over invertible x already-inverted x requested: invertible => Ok and the flag is toggled exactly when inversion is requested; not invertible => Err(NonInvertible) when requested, Ok unchanged otherwise; fwd/inv functions are never exchanged or replaced"}
+//@h {"id":"C03.K.handle_inversion.table","props":["C03","C10"],"tier":"quick","kind":"complete","timeout":1800,"text":"handle_inversion truth table over invertible x already-inverted x requested: invertible => Ok and the flag is toggled exactly when inversion is requested; not invertible => Err(NonInvertible) when requested, Ok unchanged otherwise; fwd/inv functions are never exchanged or replaced"}
 #[kani::proof]
 #[kani::unwind(6)]
 fn c03_handle_inversion_table() {
@@ -77,7 +77,7 @@ fn c03_handle_inversion_table() {
     }
 }
 
-//@h {"id":"C03.K.handle_op_inversion","props":["C03"],"tier":"quick","kind":"complete","timeout":900,"text":"handle_op_inversion inverts exactly when the step's own parsed `inv` flag is set (accessor replaced by its contract)"}
+//@h {"id":"C03.K.handle_op_inversion","props":["C03"],"tier":"quick","kind":"complete","timeout":1800,"text":"handle_op_inversion inverts exactly when the step's own parsed `inv` flag is set (accessor replaced by its contract)"}
 #[kani::proof]
 #[kani::unwind(6)]
 #[kani::stub(crate::op::ParsedParameters::boolean, stub_boolean)]
